@@ -280,7 +280,10 @@ impl Display for InlinePrintAmount<'_, '_> {
             },
             _ => {
                 write!(f, "(")?;
-                for (i, (c, v)) in vs.iter().enumerate() {
+                // HashMap iteration order is not stable, sort by the commodity name.
+                let mut vs: Vec<_> = vs.iter().collect();
+                vs.sort_unstable_by_key(|(c, _)| c.as_str());
+                for (i, (c, v)) in vs.into_iter().enumerate() {
                     if i != 0 {
                         write!(f, " + ")?;
                     }
